@@ -2129,7 +2129,15 @@ class NamespacedRefsContainer(RefsContainer):
 
     def read_loose_ref(self, name: Ref) -> bytes | None:
         """Read a loose reference."""
-        return self._refs.read_loose_ref(Ref(self._apply_namespace(name)))
+        contents = self._refs.read_loose_ref(Ref(self._apply_namespace(name)))
+        if contents and contents.startswith(SYMREF):
+            # set_symbolic_ref() stores the target under the namespace; hand
+            # it out the way it was given, so that it can be followed through
+            # this container
+            target = self._strip_namespace(contents[len(SYMREF) :])
+            if target is not None:
+                return SYMREF + target
+        return contents
 
     def get_packed_refs(self) -> dict[Ref, ObjectID]:
         """Get packed refs within this namespace."""
